@@ -90,6 +90,29 @@ def run(tier, seed, out, drv, facts):
             prog = [{"op": "ctx", "body": body, "exit": "ret"}]
             got, want = progcheck.compare_program(out, drv, facts, prog, "renamed", rng=rng, as_violation=as_violation, shrink=False)
             out.case(("renamed", a, json.dumps(t), json.dumps(s), json.dumps(x)), True, sample={"names": [a, b], "T": t, "S": s, "x": x, "verdicts": progcheck.verdicts(got)})
+    # a structure-named PyTree as (part of) the LEAF TYPE of another PyTree: while the outer tree is being flattened the
+    # inner check is tried at inner nodes, binds its name, and fails on a leaf — the name must be unbound again, whether
+    # the outer check then succeeds (through another union member) or fails, and a later first use binds it
+    from gen_prog import STR, sval
+
+    def tup(*xs):
+        return {"t": "tuple", "xs": list(xs)}
+
+    inner = {"t": "pytree", "l": INT, "s": "S"}
+    outers = [("PyTree[Union[str, PyTree[int,'S']]]", {"t": "pytree", "l": {"t": "union", "ts": [STR, inner]}, "s": None}),
+              ("PyTree[PyTree[int,'S']]", {"t": "pytree", "l": inner, "s": None}),
+              ("PyTree[Union[PyTree[int,'S'], str]]", {"t": "pytree", "l": {"t": "union", "ts": [inner, STR]}, "s": None})]
+    firsts = [tup(sval("a"), sval("b")), tup(sval("a"), ival(1)), tup(tup(ival(1), sval("x")), sval("b")), {"t": "list", "xs": [tup(ival(1), ival(2)), sval("s")]}]
+    for oname, outer in outers:
+        for first in firsts:
+            body = [{"op": "check", "l": outer, "x": first},
+                    {"op": "check", "l": inner, "x": tup(ival(1), ival(2), ival(3))},
+                    {"op": "check", "l": inner, "x": tup(ival(4), ival(5))},
+                    {"op": "check", "l": {"t": "pytree", "l": INT, "s": "S T"}, "x": tup(ival(4), ival(5))},
+                    {"op": "print"}]
+            prog = [{"op": "ctx", "body": body, "exit": "ret"}]
+            got, want = progcheck.compare_program(out, drv, facts, prog, "nested-named", rng=rng, as_violation=as_violation, shrink=False)
+            out.case(("nested-named", oname, json.dumps(first)), True, sample={"outer": oname, "first": first, "verdicts": progcheck.verdicts(got)})
     # leaf types whose VALUES are containers or None (tuple[int, int], Optional[int]): the structure of a value as a
     # PyTree of L stops at the leaves of type L, it is not what flattening the raw value gives
     from gen_prog import TUP_II
